@@ -63,8 +63,49 @@ fn case(inp: &[u64]) -> Result<(), String> {
     Ok(())
 }
 
+
+/// vectors longer than 2^32 bits (the 32-bit counters of RankSmall / SelectSmall overflow into the upper counts there);
+/// input: [extra bits above 2^32, stride of ones (sparse), seed]; ~0.6 GB per structure, built one at a time
+fn big_case(inp: &[u64]) -> Result<(), String> {
+    let len = (1usize << 32) + inp[0] as usize;
+    let stride = (inp[1] as usize).max(1000);
+    let mut rng = Rng(inp[2] | 1);
+    let mut b = BitVec::new(len);
+    let mut ones: Vec<usize> = Vec::new();
+    let mut p = rng.below(stride as u64) as usize;
+    while p < len { b.set(p, true); ones.push(p); p += 1 + rng.below(2 * stride as u64) as usize; }
+    // a dense burst straddling 2^32
+    for q in ((1usize << 32) - 300)..((1usize << 32) + 300).min(len) { if q % 3 == 0 && !b[q] { b.set(q, true); ones.push(q); } }
+    ones.sort();
+    let zero_at = |r: usize| -> usize { // r-th zero by binary search over ones
+        let (mut lo, mut hi) = (0usize, len); while lo < hi { let mid = (lo + hi) / 2; let z = mid + 1 - ones.partition_point(|&x| x <= mid); if z > r { hi = mid; } else { lo = mid + 1; } } lo };
+    let rs: Vec<usize> = { let n = ones.len(); let mut v = vec![0, n - 1, n / 2, n - 2]; let k = ones.partition_point(|&x| x < (1 << 32)); for d in 0..6 { if k + d < n { v.push(k + d); } if k >= d + 1 { v.push(k - d - 1); } } for _ in 0..40 { v.push(rng.below(n as u64) as usize); } v };
+    let nz = len - ones.len();
+    let zs: Vec<usize> = { let mut v = vec![0, nz - 1, nz / 2]; let kz = (1usize << 32) - ones.partition_point(|&x| x < (1 << 32)); for d in 0..5 { v.push(kz + d); v.push(kz - d - 1); } for _ in 0..30 { v.push(rng.below(nz as u64) as usize); } v };
+    let ps: Vec<usize> = { let mut v = vec![0, len, len + 5, 1 << 32, (1 << 32) - 1, (1 << 32) + 1]; for _ in 0..40 { v.push(rng.below(len as u64) as usize); } v };
+    macro_rules! chk { ($name:expr, $s:expr, $sel:expr, $selz:expr) => {{ let s = $s;
+        for &p in &ps { let want = ones.partition_point(|&x| x < p.min(len)); if s.rank(p) != want { return Err(format!("{}: rank({}) = {} expected {}", $name, p, s.rank(p), want)); } }
+        if $sel { for &r in &rs { let g = s.select(r); if g != Some(ones[r]) { return Err(format!("{}: select({}) = {:?} expected {}", $name, r, g, ones[r])); } } }
+        if $selz { for &r in &zs { let g = s.select_zero(r); let w = zero_at(r); if g != Some(w) { return Err(format!("{}: select_zero({}) = {:?} expected {}", $name, r, g, w)); } } }
+    }} }
+    chk!("SelectZeroSmall(SelectSmall(RankSmall<2,9>))", SelectZeroSmall::<2, 9, _>::new(SelectSmall::<2, 9, _>::new(RankSmall::<2, 9, _>::new(b.clone()))), true, true);
+    chk!("SelectZeroSmall(SelectSmall(RankSmall<1,11>))", SelectZeroSmall::<1, 11, _>::new(SelectSmall::<1, 11, _>::new(RankSmall::<1, 11, _>::new(b.clone()))), true, true);
+    chk!("SelectZeroSmall(SelectSmall(RankSmall<3,13>))", SelectZeroSmall::<3, 13, _>::new(SelectSmall::<3, 13, _>::new(RankSmall::<3, 13, _>::new(b.clone()))), true, true);
+    chk!("SelectZeroSmall(SelectSmall(RankSmall<1,9>))", SelectZeroSmall::<1, 9, _>::new(SelectSmall::<1, 9, _>::new(RankSmall::<1, 9, _>::new(b.clone()))), true, true);
+    chk!("SelectZeroSmall(SelectSmall(RankSmall<1,10>))", SelectZeroSmall::<1, 10, _>::new(SelectSmall::<1, 10, _>::new(RankSmall::<1, 10, _>::new(b.clone()))), true, true);
+    chk!("SelectZeroAdapt(SelectAdapt(Rank9))", SelectZeroAdapt::new(SelectAdapt::new(Rank9::new(b.clone()), 3), 3), true, true);
+    { let s = Select9::new(Rank9::new(b.clone()));
+      for &p in &ps { let want = ones.partition_point(|&x| x < p.min(len)); if s.rank(p) != want { return Err(format!("Select9: rank({})", p)); } }
+      for &r in &rs { let g = s.select(r); if g != Some(ones[r]) { return Err(format!("Select9: select({}) = {:?} expected {}", r, g, ones[r])); } } }
+    Ok(())
+}
+
 pub fn run(case_name: &str, ctx: &mut Ctx, one: Option<&str>, rng: &mut Rng, budget: usize) {
-    let _ = case_name;
+    if case_name == "select_big" {
+        if let Some(s) = one { let inp = parse_list(s); ctx.trial(s, false, || big_case(&inp)); return; }
+        for v in [vec![4096u64, 400_000, 5], vec![1 << 30, 3_000_000, 9]] { if budget < 1000 && v[0] > 5000 { continue; } let s = fmt_list(&v); ctx.trial(&s, false, || big_case(&v)); }
+        return;
+    }
     if let Some(s) = one { let inp = parse_list(s); ctx.trial(s, false, || case(&inp)); return; }
     for len in [0u64, 1, 63, 64, 65, 127, 128, 129, 1000, 8192, 20000, 70000, 1 << 20, (1 << 21) + 77] { for dens in [0u64, 100_000, 50_000, 500, 2000, 12_500, 99_500, 30, 3] { for extra in [0u64, 700] {
         let v = vec![len, len + extra, dens, 3 + len + dens]; let s = fmt_list(&v); ctx.trial(&s, false, || case(&v));
